@@ -315,7 +315,9 @@ func c13Items() []c13Item {
 	for _, d := range []string{"2020-12-31T23:59:59.9996", "2020-12-31T23:59:59.9996Z", "2020-02-29T23:59:59.99999+05:30", "2020-01-15T10:59:59.9995", "9999-12-31T23:59:59.9999Z"} {
 		add("datetime.carry", d)
 	}
-	for _, q := range []string{"5", "5 'mg'", "5 mg", "5 days", "5days", "5 day", "'mg'", "+5.0 'kg'", "-5.5 'mg'", "5 'mg' ", "5  'mg'", "5 ''", "5 weeks", "5 wk", "5 'wk'", "1.5 hours", "5 Days", ".5 'mg'", "5. 'mg'", "5 'mg' x"} {
+	for _, q := range []string{"5", "5 'mg'", "5 mg", "5 days", "5days", "5 day", "'mg'", "+5.0 'kg'", "-5.5 'mg'", "5 'mg' ", "5  'mg'", "5 ''", "5 weeks", "5 wk", "5 'wk'", "1.5 hours", "5 Days", ".5 'mg'", "5. 'mg'", "5 'mg' x",
+		// unquoted units may be letters only: brackets, underscores, carets and back-ticks (common in UCUM codes) need the quotes
+		"120 mm[Hg]", "1 [in_i]", "5 m_s", "5 a^b", "7 [degF]", "3 a`b", "5mm[Hg]", "5 m\\s", "120 'mm[Hg]'", "1 '[in_i]'"} {
 		add("quantity", q)
 	}
 	return out
